@@ -1,2 +1,30 @@
 #!/usr/bin/env python3
-print("setup placeholder")
+"""setup_cmd: build everything from files on disk, offline."""
+import os
+import shutil
+import subprocess
+import sys
+
+HERE = os.path.dirname(os.path.abspath(__file__))
+VERIF = os.path.dirname(HERE)
+env = dict(os.environ, CARGO_NET_OFFLINE="true")
+
+
+def sh(cmd, cwd):
+    print("+", " ".join(cmd), flush=True)
+    return subprocess.call(cmd, cwd=cwd, env=env)
+
+
+rc = sh([sys.executable, os.path.join(HERE, "extract.py")], VERIF)
+if rc != 0:
+    print("extract.py reported failures (checks will report them)")
+rc = sh(["lake", "build"], os.path.join(VERIF, "lean"))
+if rc != 0:
+    print("lake build failed (checks will report it)")
+lock = os.path.join(VERIF, "harness", "Cargo.lock")
+if not os.path.exists(lock) and os.path.exists("/repo/Cargo.lock"):
+    shutil.copy("/repo/Cargo.lock", lock)
+rc = sh(["cargo", "build", "--offline"], os.path.join(VERIF, "harness"))
+if rc != 0:
+    print("cargo build failed (checks will report it)")
+sys.exit(0)
